@@ -178,6 +178,187 @@ def expr_depth(node) -> int:
 
 
 # --------------------------------------------------------------------------------------
+# Territory analyses: which KNOWN defect classes of the library an expression can touch.
+# General (non-probe) models of the oracles are generated / filtered so that they touch none;
+# the classes are exercised by dedicated probe models with dedicated signatures.
+# --------------------------------------------------------------------------------------
+TRIG = ("sin", "cos", "tan")
+BOOL_CALLS = ("Lt", "Gt", "Le", "Ge", "Eq", "Not", "And", "Or")
+
+
+def _children(node):
+    k = node[0]
+    if k == "un":
+        return (node[2],)
+    if k == "par":
+        return (node[1],)
+    if k == "bin":
+        return (node[2], node[3])
+    if k == "call":
+        return tuple(node[2])
+    return ()
+
+
+def _contains(node, pred) -> bool:
+    return pred(node) or any(_contains(c, pred) for c in _children(node))
+
+
+def pi_in_trig(node) -> bool:
+    """`pi` anywhere inside the argument of sin / cos / tan (sympy evaluates trigonometric functions of an
+    unevaluated sum containing pi and drops terms: cos(2 - pi + 2) -> -cos(2))"""
+    if node[0] == "call" and node[1] in TRIG and any(_contains(a, lambda n: n[0] == "pi") for a in node[2]):
+        return True
+    return any(pi_in_trig(c) for c in _children(node))
+
+
+def _c_int(node) -> bool:
+    """the C expression printed for this node has type int (integer literals, comparisons, ternaries of ints)"""
+    k = node[0]
+    if k == "num":
+        return re.fullmatch(r"\d+", node[1]) is not None
+    if k == "par":
+        return _c_int(node[1])
+    if k == "un":
+        return _c_int(node[2])
+    if k == "bin":
+        return node[1] in "+-*/" and _c_int(node[2]) and _c_int(node[3])
+    if k == "call":
+        if node[1] in BOOL_CALLS:
+            return True
+        if node[1] == "Conditional" and len(node[2]) == 3:
+            return _c_int(node[2][1]) and _c_int(node[2][2])
+        if node[1] in ("abs", "Abs", "Mod"):
+            return all(_c_int(a) for a in node[2])
+    return False
+
+
+def _int_valued(node) -> bool:
+    """sympy knows the value is an integer (then abs prints as C `abs`, Mod as `%`)"""
+    k = node[0]
+    if k == "num":
+        return re.fullmatch(r"\d+", node[1]) is not None
+    if k == "par":
+        return _int_valued(node[1])
+    if k == "un":
+        return _int_valued(node[2])
+    if k == "bin":
+        if node[1] in "+-*":
+            return _int_valued(node[2]) and _int_valued(node[3])
+        return node[1] == "**" and _int_valued(node[2]) and node[3][0] == "num" and re.fullmatch(r"\d+", node[3][1]) is not None
+    if k == "call":
+        if node[1] == "floor":
+            return True
+        if node[1] in ("abs", "Abs", "Mod"):
+            return all(_int_valued(a) for a in node[2])
+        if node[1] == "Conditional" and len(node[2]) == 3:
+            return _int_valued(node[2][1]) and _int_valued(node[2][2])
+    return False
+
+
+def _syn_nonneg(node, strict=False) -> bool:
+    """syntactically >= 0 (strict: > 0) whatever the values of the names"""
+    k = node[0]
+    if k == "num":
+        return float(node[1]) > 0 or (not strict and float(node[1]) == 0)
+    if k == "pi":
+        return True
+    if k == "par":
+        return _syn_nonneg(node[1], strict)
+    if k == "un":
+        return node[1] == "+" and _syn_nonneg(node[2], strict)
+    if k == "bin":
+        a, b = node[2], node[3]
+        if node[1] == "+":
+            return (_syn_nonneg(a, strict) and _syn_nonneg(b)) or (_syn_nonneg(a) and _syn_nonneg(b, strict))
+        if node[1] in "*/":
+            return _syn_nonneg(a, strict) and _syn_nonneg(b, strict or node[1] == "/")
+        if node[1] == "**":
+            if _syn_nonneg(a, strict):
+                return True
+            return not strict and b[0] == "num" and re.fullmatch(r"\d*[02468](\.0*)?", b[1]) is not None
+        return False
+    if k == "call":
+        if node[1] in ("abs", "Abs"):
+            return not strict
+        if node[1] == "exp":
+            return True
+        if node[1] == "sqrt":
+            return not strict or _syn_nonneg(node[2][0], True)
+    return False
+
+
+def c_unsafe(node) -> set:
+    """classes of KNOWN C-backend defects the expression can touch: 'int-quotient' (a quotient whose two operands are
+    C ints: integer literals, comparisons, ternaries of ints), 'int-abs' (abs of something containing floor: printed as the
+    C int `abs`), 'int-mod' (Mod of two integer-valued operands: printed as `%` on doubles), 'mod-sign' (Mod whose
+    operands are not syntactically positive: C fmod keeps the sign of the dividend)"""
+    out = set()
+    k = node[0]
+    if k == "bin" and node[1] == "/" and _c_int(node[2]) and _c_int(node[3]):
+        out.add("int-quotient")
+    if k == "call" and node[1] in ("abs", "Abs") and any(_contains(a, lambda n: n[0] == "call" and n[1] == "floor") for a in node[2]):
+        out.add("int-abs")
+    if k == "call" and node[1] == "Mod" and len(node[2]) == 2:
+        if _int_valued(node[2][0]) and _int_valued(node[2][1]):
+            out.add("int-mod")
+        if not (_syn_nonneg(node[2][0]) and _syn_nonneg(node[2][1], True)):
+            out.add("mod-sign")
+    for c in _children(node):
+        out |= c_unsafe(c)
+    return out
+
+
+def _rewrite(text: str, fn) -> str:
+    """rebuild an expression text token by token: fn(kind, value, previous tokens) -> replacement"""
+    out, pos, prev = [], 0, []
+    while pos < len(text):
+        m = _TOK.match(text, pos)
+        if not m:
+            out.append(text[pos:])
+            break
+        kind = m.lastgroup
+        out.append(text[pos:m.start(kind)])
+        out.append(fn(kind, m.group(kind), prev))
+        prev.append((kind, m.group(kind)))
+        pos = m.end()
+    return "".join(out)
+
+
+def floatify(text: str) -> str:
+    """every integer literal written as a float (7 / 2 -> 7.0 / 2.0) except a literal exponent (x**2, x**-1)"""
+    def fn(kind, val, prev):
+        if kind != "num" or not re.fullmatch(r"\d+", val):
+            return val
+        if prev and prev[-1] == ("op", "**"):
+            return val
+        if len(prev) >= 2 and prev[-2] == ("op", "**") and prev[-1] in (("op", "-"), ("op", "+")):
+            return val
+        return val + ".0"
+
+    return _rewrite(text, fn)
+
+
+def no_pi_in_trig(text: str) -> str:
+    """`pi` inside the argument of sin / cos / tan replaced by the literal 3.14"""
+    st = {"depth": 0, "open": []}
+
+    def fn(kind, val, prev):
+        if kind == "op" and val == "(":
+            st["depth"] += 1
+            if prev and prev[-1][0] == "name" and prev[-1][1] in TRIG:
+                st["open"].append(st["depth"])
+        elif kind == "op" and val == ")":
+            if st["open"] and st["open"][-1] == st["depth"]:
+                st["open"].pop()
+            st["depth"] -= 1
+        elif kind == "name" and val == "pi" and st["open"]:
+            return "3.14"
+        return val
+
+    return _rewrite(text, fn)
+
+
+# --------------------------------------------------------------------------------------
 # Dual numbers (forward mode AD) and evaluation
 # --------------------------------------------------------------------------------------
 class Dual:
@@ -226,7 +407,8 @@ class Ctx:
     def __init__(self, lookup, int_div=False, c_fmod=False, frag_tol=1e-9):
         self.lookup = lookup
         self.fragile = False
-        self.maxabs = 0.0  # largest operand of an addition/subtraction/Mod (cancellation scale)
+        self.maxabs = 0.0  # largest operand of an addition / subtraction / Mod / trigonometric function (absolute-error scale)
+        self.flags = set()  # facts about the evaluation an oracle may want to know ("mod-negative-operand")
         self.int_div = int_div  # C semantics for integer-literal quotients
         self.c_fmod = c_fmod  # C fmod sign
         self.frag_tol = frag_tol
@@ -325,7 +507,7 @@ def _bin(node, ctx):
     if op == "*":
         return _mk(av * bv, ad * bv + av * bd, a, b)
     if op == "/":
-        if ctx.int_div and _is_intlit(node[2]) and _is_intlit(node[3]):
+        if ctx.int_div and _c_int(node[2]) and _c_int(node[3]):  # both operands are C ints (literals, comparisons, ternaries of ints)
             return float(int(av / bv))
         return _mk(av / bv, (ad * bv - av * bd) / (bv * bv), a, b)
     if op == "**":
@@ -370,12 +552,26 @@ def _call(node, ctx):
             raise RefError(f"{name} with {len(args)} arguments is outside the reference")
         a = _num(ev(args[0], ctx))
         x = _val(a)
+        if ctx.c_fmod and name in ("abs", "Abs"):  # sympy drops the abs of a Mod (non-negative by definition); C fmod is not
+            inner = args[0]
+            while inner[0] == "par":
+                inner = inner[1]
+            if inner[0] == "call" and inner[1] == "Mod":
+                return a
         if name == "floor":
             ctx.near(x, round(x), _simple(args[0]))
         if name in ("abs", "Abs") and isinstance(a, Dual):
             ctx.near(x, 0.0, False)
+        if name in ("sin", "cos", "tan"):  # |f'| is O(1): the rounding of the argument becomes an absolute error of the result
+            ctx.maxabs = max(ctx.maxabs, abs(x))
+        if name in ("asin", "acos") and abs(abs(x) - 1.0) <= 1e-9:  # edge of the real domain, infinite slope
+            ctx.fragile = True
+        if name in ("sqrt", "log", "ln") and 0.0 < abs(x) <= 1e-9 * ctx.maxabs and not _simple(args[0]):
+            ctx.fragile = True  # the argument is a cancellation residue: its sign / size is rounding noise
         f, df = _D1[name]
         r = f(x)
+        if name in ("asin", "acos", "atan"):
+            ctx.maxabs = max(ctx.maxabs, abs(r))
         return _mk(r, df(x, r) * _der(a) if isinstance(a, Dual) else 0.0, a)
     if name == "Mod":
         a = _num(ev(args[0], ctx))
@@ -384,6 +580,8 @@ def _call(node, ctx):
         q = av / bv
         ctx.maxabs = max(ctx.maxabs, abs(av))
         ctx.near(q, round(q), _simple(args[0]) and _simple(args[1]))
+        if av < 0 or bv < 0:
+            ctx.flags.add("mod-negative-operand")
         if ctx.c_fmod:
             return math.fmod(av, bv)
         r = av % bv
@@ -628,6 +826,7 @@ class RefModel:
                 raise RefError(f"{n} not finite")
             out[n] = v
         self.last_maxabs = ctx.maxabs
+        self.last_flags = set(ctx.flags)
         return out, ctx.fragile
 
     def rhs(self, t, states, params, **sw):
@@ -690,6 +889,46 @@ class RefModel:
     def max_depth(self) -> int:
         return max([expr_depth(a.ast) for a in self.assigns.values()] + [0])
 
+    def has_pi_in_trig(self) -> bool:
+        return any(pi_in_trig(a.ast) for a in self.assigns.values())
+
+    def pi_reaches_trig(self) -> bool:
+        """`pi` inside a trigonometric argument directly or through the intermediates mentioned there (what substitution of
+        the intermediates, e.g. by sympytools.rhs_matrix, turns into a trigonometric function of a sum containing pi)"""
+        has_pi = {n: _contains(a.ast, lambda x: x[0] == "pi") for n, a in self.assigns.items()}
+
+        def visit(node):
+            if node[0] == "call" and node[1] in TRIG:
+                names = set()
+                for a in node[2]:
+                    if _contains(a, lambda x: x[0] == "pi"):
+                        return True
+                    names |= expr_vars(a)
+                for n in names:
+                    if any(has_pi.get(c) for c in self.closure(n)):
+                        return True
+            return any(visit(c) for c in _children(node))
+
+        return any(visit(a.ast) for a in self.assigns.values())
+
+    def c_unsafe(self) -> set:
+        """KNOWN C-backend defect classes the model text can touch (see c_unsafe); declarations included"""
+        out = set()
+        for a in self.assigns.values():
+            out |= c_unsafe(a.ast)
+        for d in list(self.states.values()) + list(self.params.values()):
+            out |= c_unsafe(parse_expr(d.expr_text))
+        return out
+
+    def deriv_refs(self) -> dict:
+        """{intermediate name: [d<state>_dt names its expression mentions]}"""
+        out = {}
+        for n in self.inter_names:
+            r = sorted(d for d in self.assigns[n].deps if d in self.deriv_names)
+            if r:
+                out[n] = r
+        return out
+
     def defaults(self):
         return ({k: d.value for k, d in self.states.items()}, {k: d.value for k, d in self.params.items()})
 
@@ -748,6 +987,12 @@ class GenOpts:
     min_comps_used: int = 0
     int_states: bool = False
     unused_frac: float = 0.25
+    pi_in_trig: bool = False  # False: `pi` never inside the argument of sin / cos / tan (known sympy problem, probe territory)
+    c_safe: bool = False  # True: nothing of the KNOWN C-backend defect classes (integer literals written as floats, no integer
+    #                       quotients / exponents, Mod only of positive operands, no abs of floor); see c_unsafe
+    indep: float = 0.0  # probability of the shape "derivatives independent of each other + unused intermediates that mention
+    #                     states / parameters in various orders" (where a different sort of the reduced assignment set shows)
+    deriv_ref: float = 0.0  # probability that 1-2 intermediates (unused monitors or used ones) mention a d<state>_dt name
 
 
 @dataclass
@@ -762,6 +1007,8 @@ class Model:
     unused_params: list = field(default_factory=list)
     singular_points: list = field(default_factory=list)  # [(state, value, kind)]
     own_forms: dict = field(default_factory=dict)
+    indep: bool = False
+    deriv_refs: dict = field(default_factory=dict)  # {intermediate: d<state>_dt it mentions}
 
     def ref(self) -> RefModel:
         return RefModel(self.text)
@@ -790,9 +1037,10 @@ def _lit(rng: random.Random, feats, positive=False, small=False):
 
 
 class _Gen:
-    def __init__(self, rng: random.Random, feats: set, depth: int):
+    def __init__(self, rng: random.Random, feats: set, depth: int, c_safe: bool = False):
         self.rng, self.feats, self.maxdepth = rng, feats, depth
         self.force: list = []
+        self.c_safe = c_safe
 
     def has(self, f):
         return f in self.feats
@@ -856,8 +1104,9 @@ class _Gen:
             ("abs", 0.5, lambda: f"abs({E()})"),
             ("Abs", 0.3, lambda: f"Abs({E()})"),
             ("floor", 0.5, lambda: f"floor({E()})"),
-            ("Mod", 0.5, lambda: f"Mod({E()}, {rng.choice(['2', '3', '1.5', '0.7', '-2', '-1.5'])})"),
-            ("Mod", 0.2, lambda: f"Mod({E()}, {self.nonzero(vs, d - 1)})"),
+            ("Mod", 0.5, (lambda: f"Mod({self.pos(vs, d - 1)}, {rng.choice(['2', '3', '1.5', '0.7'])})") if self.c_safe else
+             (lambda: f"Mod({E()}, {rng.choice(['2', '3', '1.5', '0.7', '-2', '-1.5'])})")),
+            ("Mod", 0.2, (lambda: f"Mod({self.pos(vs, d - 1)}, {self.pos(vs, d - 1)})") if self.c_safe else (lambda: f"Mod({E()}, {self.nonzero(vs, d - 1)})")),
             ("Conditional", 1.2, lambda: f"Conditional({self.boolean(vs, d - 1)}, {E()}, {E()})"),
             ("nestcond", 0.5, lambda: f"Conditional({self.boolean(vs, d - 1)}, {E()}, Conditional({self.boolean(vs, d - 1)}, {E()}, {E()}))"),
             ("nestcond", 0.3, lambda: f"Conditional({self.boolean(vs, d - 1)}, Conditional({self.boolean(vs, d - 1)}, {E()}, {E()}), {E()})"),
@@ -913,6 +1162,8 @@ class _Gen:
             b = self.expr(vs, min(d, 1)) if rng.random() < 0.6 else _lit(rng, self.feats)
         if b.replace(" ", "") == a.replace(" ", ""):
             b = _lit(rng, self.feats)
+        if self.c_safe and expr_vars(parse_expr(b)) & expr_vars(parse_expr(a)):
+            b = _lit(rng, self.feats)  # `Gt(2 + v, v)` is folded to a bare boolean constant by sympy (probe territory)
         return f"{r}({a}, {b})"
 
     def boolean(self, vs, d):
@@ -971,6 +1222,10 @@ def gen_model(seed: int, opts: GenOpts | None = None) -> Model:
         try:
             m = _gen_once(rng, o, seed)
             ref = m.ref()
+            if not o.pi_in_trig and ref.has_pi_in_trig():
+                continue
+            if o.c_safe and ref.c_unsafe():
+                continue
             if valid_points(ref, random.Random(seed), 4, tries=12):
                 return m
         except RefError:
@@ -985,12 +1240,22 @@ def _fallback(seed):
 
 def _gen_once(rng: random.Random, o: GenOpts, seed: int) -> Model:
     feats = set(o.features if o.features is not None else ALL_FEATURES)
-    g = _Gen(rng, feats, o.depth)
+    if o.c_safe:
+        feats -= {"intquot"}
+    g = _Gen(rng, feats, o.depth, c_safe=o.c_safe)
     g.force = [f for f in o.force if f in feats]
     nS = rng.randint(*o.n_states)
     nP = rng.randint(*o.n_params)
     nI = rng.randint(*o.n_inter)
     nC = rng.randint(*o.n_comps)
+    indep = o.indep > 0 and rng.random() < o.indep
+    want_dref = o.deriv_ref > 0 and rng.random() < o.deriv_ref
+    if indep:
+        nS = max(nS, min(max(2, o.n_states[1]), rng.randint(2, 4)))
+        nI = max(nI, rng.randint(2, 5))
+        nP = max(nP, rng.randint(1, 3))
+    if want_dref:
+        nI = max(nI, 1)
     S = rng.sample(STATE_NAMES, nS)
     P = rng.sample(PARAM_NAMES, nP)
     I = rng.sample(INTER_NAMES, nI)
@@ -1019,12 +1284,31 @@ def _gen_once(rng: random.Random, o: GenOpts, seed: int) -> Model:
         for p in P:
             if rng.random() < 0.2 and len(P) - len(unused_P) > 0:
                 unused_P.append(p)
+    if indep:  # at least one unused intermediate, at least one used parameter
+        k = rng.randint(1, max(1, len(I) // 2 + 1))
+        unused_I = [n for n in I if n in set(unused_I) | set(rng.sample(I, min(k, len(I))))]
+        if len(unused_P) == len(P):
+            unused_P = unused_P[1:]
     usedP = [p for p in P if p not in unused_P]
     usedI = [n for n in I if n not in unused_I]
     exprs: dict = {}
     shape = rng.choice(["chain", "diamond", "random", "random", "flat"])
+    group_of = {n: rng.choice(S) for n in usedI} if indep else {}
     for idx, n in enumerate(I):
         is_un = n in unused_I
+        if indep:
+            # unused: a random selection of states / parameters (all of them mentioned), sometimes an earlier unused one;
+            # used: only the state of its own group, used parameters and earlier intermediates of the same group
+            if is_un:
+                names = rng.sample(S + P, min(len(S + P), rng.randint(1, 3)))
+                prev_un = [e for e in I[:idx] if e in unused_I]
+                must = names + ([rng.choice(prev_un)] if prev_un and rng.random() < 0.3 else [])
+            else:
+                prev_g = [e for e in I[:idx] if group_of.get(e) == group_of[n]]
+                must = ([prev_g[-1]] if prev_g and rng.random() < 0.6 else []) + ([group_of[n]] if rng.random() < 0.8 else [])
+                names = must + rng.sample(usedP, min(len(usedP), rng.randint(0, 2)))
+            exprs[n] = _with_must(g, must * 2 + names, must, min(o.depth, 2))
+            continue
         earlier = [e for e in I[:idx] if (e in unused_I) == is_un or (is_un and rng.random() < 0.5)]
         must = []
         if earlier:
@@ -1054,14 +1338,18 @@ def _gen_once(rng: random.Random, o: GenOpts, seed: int) -> Model:
     dexpr = {}
     for si, s in enumerate(S):
         must = []
-        share = max(1, math.ceil(len(pending) / max(1, (len(S) - si))))
-        for _ in range(min(share, len(pending))):
-            must.append(pending.pop())
-        if si == len(S) - 1:
-            must += pending
-            pending = []
-        base = S + usedP + usedI
-        vs = must * 2 + (rng.sample(base, min(len(base), rng.randint(1, 3))) if base else [])
+        if indep:  # d<s>_dt mentions only s, used parameters and the (so far unreferenced) intermediates of its own group
+            must = [n for n in pending if group_of[n] == s]
+            vs = must * 2 + [s] + rng.sample(usedP, min(len(usedP), rng.randint(0, 2)))
+        else:
+            share = max(1, math.ceil(len(pending) / max(1, (len(S) - si))))
+            for _ in range(min(share, len(pending))):
+                must.append(pending.pop())
+            if si == len(S) - 1:
+                must += pending
+                pending = []
+            base = S + usedP + usedI
+            vs = must * 2 + (rng.sample(base, min(len(base), rng.randint(1, 3))) if base else [])
         e = _with_must(g, vs, must, o.depth)
         if rng.random() < o.own:
             forms = list(o.own_forms or OWN_FORMS)
@@ -1075,6 +1363,31 @@ def _gen_once(rng: random.Random, o: GenOpts, seed: int) -> Model:
                 e = _with_must(g, others, [m_ for m_ in must if m_ != s], max(1, o.depth - 1))
             e = f"{term} + {e}" if rng.random() < 0.5 else f"{e} + {term}"
         dexpr[s] = e
+    # intermediates that mention a state derivative by name (an unused monitor `i_cap = Cm*dV_dt`, or a used one)
+    drefs = {}
+    if want_dref and I:
+        allx = dict(exprs)
+        allx.update({f"d{s}_dt": dexpr[s] for s in S})
+
+        def reaches(src, target, seen=None):
+            seen = set() if seen is None else seen
+            if src == target:
+                return True
+            if src in seen or src not in allx:
+                return False
+            seen.add(src)
+            return any(reaches(v, target, seen) for v in expr_vars(parse_expr(allx[src])))
+
+        cands = list(dict.fromkeys(rng.sample(unused_I, len(unused_I)) + rng.sample(unused_I + usedI, len(unused_I + usedI))))
+        for n in cands[: rng.randint(1, 2)]:
+            ok = [s for s in S if n in unused_I or not reaches(f"d{s}_dt", n)]
+            if not ok:
+                continue
+            s = rng.choice(ok)
+            coef = rng.choice((P if n in unused_I else usedP) or [_lit(rng, feats, positive=True)])
+            exprs[n] = rng.choice([f"{coef}*d{s}_dt", f"{exprs[n]} + {coef}*d{s}_dt", f"d{s}_dt - ({exprs[n]})"])
+            allx[n] = exprs[n]
+            drefs[n] = f"d{s}_dt"
     # unused params must be unreferenced; used params that ended up unreferenced are fine
     for kind, sv, a in plan_sing:
         build, lim = SINGULAR_FORMS[kind]
@@ -1087,6 +1400,19 @@ def _gen_once(rng: random.Random, o: GenOpts, seed: int) -> Model:
         tgt = rng.choice(S)
         dexpr[tgt] = f"{dexpr[tgt]} + 1/({sv} - 4)"
         sing_points.append((sv, 4.0, "infinite", f"d{tgt}_dt"))
+    # ---- territory rewriting (see c_unsafe / pi_in_trig) -------------------------------------
+    def tidy(e):
+        if not o.pi_in_trig:
+            e = no_pi_in_trig(e)
+        if o.c_safe:
+            e = floatify(e)
+        return e
+
+    exprs = {n: tidy(e) for n, e in exprs.items()}
+    dexpr = {n: tidy(e) for n, e in dexpr.items()}
+    if o.c_safe:
+        sval = {n: floatify(v) for n, v in sval.items()}
+        pval = {n: floatify(v) for n, v in pval.items()}
     # ---- render -----------------------------------------------------------------
     ann = o.annotations
     lines = []
@@ -1156,7 +1482,7 @@ def _gen_once(rng: random.Random, o: GenOpts, seed: int) -> Model:
             lines.append(ln)
         lines.append("")
     text = "\n".join(lines).rstrip("\n") + "\n"
-    return Model(text, seed, S, P, I, pool, unused_I, unused_P, sing_points, own)
+    return Model(text, seed, S, P, I, pool, unused_I, unused_P, sing_points, own, indep, drefs)
 
 
 def _with_must(g: _Gen, vs, must, depth):
